@@ -137,6 +137,7 @@ type env struct {
 	ch     *child
 	snap   *snapshot
 	deaths int
+	dirty  bool // the outside may differ from the snapshot
 	// write end of the janitor's stdin: must stay referenced (a collected
 	// *os.File is closed) and is closed by the OS when this process ends
 	janitorIn io.WriteCloser
